@@ -133,7 +133,13 @@ func (a *Analyzer) SummaryUnder(fn *ssa.Function, args []*Term, ctxFacts Facts, 
 			hasConst = true
 		}
 	}
-	if len(init) == 0 && !hasConst {
+	hasPattern := false
+	for _, at := range assume {
+		if at.Mentions(func(t *Term) bool { return t.Op == "var" }) {
+			hasPattern = true
+		}
+	}
+	if len(init) == 0 && !hasConst && !hasPattern {
 		return a.Summary(fn)
 	}
 	var kb strings.Builder
@@ -142,6 +148,9 @@ func (a *Analyzer) SummaryUnder(fn *ssa.Function, args []*Term, ctxFacts Facts, 
 		kb.WriteString("|" + t.Key())
 	}
 	kb.WriteString("#" + strings.Join(init.SortedKeys(), ";"))
+	for _, at := range assume {
+		kb.WriteString("~" + at.Key())
+	}
 	key := kb.String()
 	if s, ok := a.ctxSummaries[key]; ok {
 		if s.busy {
